@@ -343,8 +343,10 @@ func makeVaryHash(vary map[string]string) uint64 {
 	keys = slices.AppendSeq(keys, maps.Keys(vary))
 	slices.Sort(keys)
 	for _, k := range keys {
-		_, _ = h.Write([]byte(k))
-		_, _ = h.Write([]byte(vary[k]))
+		// Names and values are length-prefixed so that different sets of fields
+		// cannot produce the same byte stream.
+		_, _ = h.Write([]byte(strconv.Itoa(len(k)) + ":" + k))
+		_, _ = h.Write([]byte(strconv.Itoa(len(vary[k])) + ":" + vary[k]))
 	}
 	return h.Sum64()
 }
